@@ -499,7 +499,7 @@ func runC13(in input) vh.Result {
 		case "raw", "delta", "fence", "ack", "cleanup":
 			dec = vh.Some(vh.Pair(vh.Hex(e.data), coqDecode(e.data)))
 		}
-		entries[i] = vh.App("Entry", vh.B(!e.c.BadSlot), vh.N(uint64(e.cmd.HashSlot)), e.c.coq(), data, dec)
+		entries[i] = vh.App("Entry", vh.B(!e.c.BadSlot), vh.N(uint64(e.cmd.HashSlot)), e.c.coq(), data, dec, e.c.coqChan())
 	}
 	dumpT := "None"
 	if modelled {
